@@ -116,6 +116,10 @@ func (hr *HistRun) stepHTTP(o Op) OpResult {
 	if res.Panic == "" {
 		hs := hr.St.SnapshotHTTP(hr.API, "l1", hr.Feat)
 		hr.Snaps = append(hr.Snaps, hs)
+		if hs.Err != "" {
+			hr.HTTPDiff = append(hr.HTTPDiff, fmt.Sprintf("after operation %d: %s [http-read-error]", len(hr.Ops), hs.Err))
+			return res
+		}
 		// monitor (no model involved): the API's rendering of the state is the controller's
 		if cs := hr.St.Snapshot(hr.ctx, hr.ctrl, "l1", hr.Feat); cs.sx() != hs.sx() || fmt.Sprint(cs.Agg) != fmt.Sprint(hs.Agg) || !sameHashes(cs.Logs, hs.Logs) {
 			hr.HTTPDiff = append(hr.HTTPDiff, fmt.Sprintf("after operation %d the v2 read endpoints and the controller reads differ [http-read-differs]: http %s %v / controller %s %v", len(hr.Ops), diffAt(hs.sx(), cs.sx()), hs.Agg, diffAt(cs.sx(), hs.sx()), cs.Agg))
